@@ -66,8 +66,13 @@ def case(cid, rng, sc):
         X = rng.normal(size=(n, dx)) * 2.0
         if np.linalg.matrix_rank(X - X.mean(0)) == dx:
             break
+    # integer-valued source now and then (counts, occupation numbers; a wide range keeps neighbour distances tie-free): the
+    # transformed variant of the shift / rescaling scenarios is then ALSO handed over as an int64 array
+    intsrc = kind in ("scale-source", "shift-source") and rng.random() < 0.3
+    if intsrc:
+        X = rng.integers(-10 ** 6, 10 ** 6, size=(n, dx)).astype(float)
     A = rng.integers(-3, 4, size=(dx, dy))
-    Y = X @ A / 2.0 + rng.normal(size=(n, dy)) if rng.random() < 0.7 else rng.normal(size=(n, dy)) * 2.0
+    Y = (X / np.abs(X).max() * 4.0 if intsrc else X) @ A / 2.0 + rng.normal(size=(n, dy)) if rng.random() < 0.7 else rng.normal(size=(n, dy)) * 2.0
     if np.any(Y.std(axis=0) == 0):
         Y[:, 0] += np.arange(n) % 3
     n_local = int(rng.integers(max(2, dx + 1), 13))
@@ -103,6 +108,8 @@ def case(cid, rng, sc):
                 Y2 = Y + rng.integers(-9, 10, size=dy)
             elif kind == "rotate-target":
                 Y2 = Y @ rat_rot(dy, ang, rng=rng)
+            if intsrc:
+                X2 = np.rint(X * 3 if kind == "scale-source" else X + rng.integers(-9, 10, size=dx) * 1000).astype(np.int64)
             c["trans"] = measures(X2, Y2, n_local, est_kind, tr, te, user_scaler)
             # special constructions
             Alin = rng.integers(-3, 4, size=(dx, dy)).astype(float)
